@@ -131,9 +131,9 @@ inline ref::Pos mirrorFiles(const ref::Pos& p) { // only for positions without c
     return r;
 }
 
-enum Tmpl { M_BACKRANK = 0, M_SMOTHER1, M_SMOTHER2, M_SMOTHER3, M_PROMO_Q, M_PROMO_N, M_EP, M_DISCOVERED, M_DOUBLE, M_CASTLE_K, M_CASTLE_Q, M_LADDER, M_KQ, M_NTMPL };
+enum Tmpl { M_BACKRANK = 0, M_SMOTHER1, M_SMOTHER2, M_SMOTHER3, M_PROMO_Q, M_PROMO_N, M_EP, M_DISCOVERED, M_DOUBLE, M_CASTLE_K, M_CASTLE_Q, M_LADDER, M_KQ, M_EP_DEFENCE, M_NTMPL };
 inline const char* tmplName(int t) {
-    static const char* n[] = {"backrank", "smother1", "smother2", "smother3", "promo-q", "promo-n", "ep", "discovered", "double", "castle-k", "castle-q", "ladder", "kq"};
+    static const char* n[] = {"backrank", "smother1", "smother2", "smother3", "promo-q", "promo-n", "ep", "discovered", "double", "castle-k", "castle-q", "ladder", "kq", "ep-defence"};
     return n[t];
 }
 
@@ -206,6 +206,19 @@ inline ref::Pos buildTemplate(Choices& c, int t, bool& mirrorOk) {
         put(p, c.flip() ? "a1" : "b1", 'K');
         if (c.chance(1, 3)) put(p, c.flip() ? "a7" : "b7", 'p');
         if (c.chance(1, 3)) put(p, "a2", 'P');
+        break;
+    }
+    case M_EP_DEFENCE: {
+        // not a mate: a double pawn push gives a check that would be mate if the defender could not capture the
+        // pusher en passant (the capture is the only defence).  An engine that forgets that evasion announces a
+        // false mate.  (mirrorFiles/flipColours of the caller cover both capture directions and both colours.)
+        put(p, "h5", 'k'); put(p, "g6", 'p'); put(p, "h6", 'p'); put(p, "h4", 'p');
+        put(p, "f4", 'P'); put(p, "g2", 'P');
+        if (c.flip()) { put(p, "h3", 'P'); put(p, c.flip() ? "g1" : "f1", 'K'); }
+        else { put(p, "f3", 'K'); put(p, "h1", 'R'); }
+        if (c.chance(1, 3)) put(p, c.flip() ? "a7" : "b6", 'p');
+        if (c.chance(1, 3)) put(p, c.flip() ? "a2" : "b3", 'P');
+        if (c.chance(1, 4)) { put(p, "c8", 'b'); put(p, "d7", 'p'); }
         break;
     }
     case M_DISCOVERED: case M_DOUBLE: {
